@@ -148,7 +148,7 @@ func modelSummary(o *Obligation) string {
 	var parts []string
 	for _, mv := range o.model {
 		if v, ok := vals[mv.Term]; ok {
-			parts = append(parts, mv.Name+"="+v)
+			parts = append(parts, mv.Name+"="+abbrevModel(v))
 		}
 	}
 	if len(parts) == 0 {
@@ -198,4 +198,34 @@ func cmdCheck(args []string) int {
 		return 2
 	}
 	return runCheck(P, *verif, *prop, *tier, seed, *verbose, t0)
+}
+
+// abbrevModel shortens array-valued model terms for display.
+func abbrevModel(v string) string {
+	for {
+		i := strings.Index(v, "(store ")
+		if i < 0 {
+			break
+		}
+		// collapse the whole store-chain into "<array>"
+		d, j := 0, i
+		for ; j < len(v); j++ {
+			if v[j] == '(' {
+				d++
+			} else if v[j] == ')' {
+				d--
+				if d == 0 {
+					break
+				}
+			}
+		}
+		if j >= len(v) {
+			break
+		}
+		v = v[:i] + "<array>" + v[j+1:]
+	}
+	if len(v) > 300 {
+		v = v[:300] + "..."
+	}
+	return v
 }
